@@ -461,6 +461,49 @@ class Escapes:
             self._getter_cache[key] = out
         return self._getter_cache[key]
 
+    def _param_classes(self, f, pname, depth=0):
+        """exception classes bound to parameter `pname` of the module-level function f at its call sites in the package (a None default
+        contributes nothing: `raise x` under `x is not None`); [] when some site cannot be resolved"""
+        if depth > 2 or f.cls is not None or f.parent is not None:
+            return []
+        a = f.node.args
+        pos = [x.arg for x in a.posonlyargs + a.args]
+        out, sites = [], 0
+        for cf in self.P.all_funcs():
+            if isinstance(cf.node, ast.Lambda):
+                continue
+            for c in walk_shallow(cf.node):
+                if not (isinstance(c, ast.Call) and isinstance(c.func, ast.Name) and c.func.id == f.name):
+                    continue
+                r = self.P.resolve_name(cf.module, c.func.id)
+                if not (r and r[0] == 'func' and r[1] is f):
+                    continue
+                arg = None
+                if pname in pos and pos.index(pname) < len(c.args):
+                    arg = c.args[pos.index(pname)]
+                for kw in c.keywords:
+                    if kw.arg == pname:
+                        arg = kw.value
+                if arg is None:
+                    continue          # the default applies at this site
+                sites += 1
+                if isinstance(arg, ast.Constant) and arg.value is None:
+                    continue
+                if isinstance(arg, ast.Call):
+                    dn = (dotted(arg.func) or '').split('.')[-1]
+                    if dn in BUILTIN_EXC or [k for k in self.P.classes.values() if k.name == dn]:
+                        out.append(dn)
+                        continue
+                    return []
+                if isinstance(arg, ast.Name):
+                    got = [x for x in self.var_classes(cf, arg, c) if not x.startswith('<')]
+                    if not got:
+                        return []
+                    out += got
+                    continue
+                return []
+        return out if sites else []
+
     def var_classes(self, f, name_node, raise_node):
         ns = f.cfg.node_of_stmt(raise_node)
         if not ns:
@@ -478,7 +521,8 @@ class Escapes:
                 else:
                     out.append('<value:' + short(d.value, 30) + '>')
             elif d.kind == 'param':
-                out.append('<param:' + d.name + '>')
+                got = self._param_classes(f, d.name)
+                out += got if got else ['<param:' + d.name + '>']
             elif d.kind == 'assign' and isinstance(d.value, ast.Name) and not f.rd.is_local(d.value.id):
                 vals = f.module.assigns.get(d.value.id) or []
                 got = False
